@@ -4,6 +4,7 @@ from common import cz, copt
 from plotink import ebb_calc
 from props import ebbgen
 
+import common
 ID = "C02"
 COQ_HEADER = "From Plotink Require Import Base.Prelude Corr.C02.\nOpen Scope Z_scope."
 COQ_RUN = "run02"
@@ -68,3 +69,9 @@ def shrink(c):
             d = dict(c); d[key] = nv
             if nv != v and ebbgen.t3_in_domain(d["T"], d["rate"], d["accel"], d["jerk"]) and (c["kind"] != "z" or d["jerk"] == 0):
                 yield d
+
+
+def static_obligations(work, tier):
+    """the predictor is re-translated from /repo's source on every run (integer/rational mode, mpmath calls read as exact arithmetic)
+    and proved equal to the model the theorems are about"""
+    return common.kernel_obligations(work, ID, "plotink/ebb_calc.py", ['move_dist_t3', 'rate_t3'], mode="zq")
